@@ -537,7 +537,9 @@ func TestC13(t *testing.T) {
 		run.Count("malformed_cases", 1)
 	}
 	endToEnd(run, rng, tr)
+	endToEndConcurrent(run, tr)
 	run.Require("stream_cases", int64(n))
+	run.Require("e2e_concurrent_cases", int64(rep.Pick(480, 6000)/map[bool]int{true: 3, false: 1}[rep.Mode() == "race"]))
 	run.Require("e2e_cases", int64(rep.Pick(60, 800)/map[bool]int{true: 3, false: 1}[rep.Mode() == "race"]))
 	run.Finish(t)
 }
@@ -585,6 +587,83 @@ func endToEnd(run *rep.Run, rng *rand.Rand, tr *anthropic.Translator) {
 			}
 			judge(run, c, res.Body, tr, "e2e/"+eng, false)
 		}
+		w.Stop()
+		b.Close()
+	}
+}
+
+// endToEndConcurrent: 24 clients stream different completions through the translated route
+// at the same time; each response is judged against the completion its own request was
+// answered with (the backend picks it by a header the client set), so bytes of another
+// client's stream show as a difference.
+func endToEndConcurrent(run *rep.Run, tr *anthropic.Translator) {
+	for _, eng := range []string{"sherpa", "olla"} {
+		b := backend.NewStd("sg", []string{"mall"}, nil)
+		w, err := world.Start(world.Spec{Engine: eng, Balancer: "priority", Endpoints: []world.Endpoint{{Name: "sg", URL: b.URL(), Type: "sglang", Priority: 100}}})
+		if err != nil {
+			run.Inconclusive("world failed to start: " + err.Error())
+			b.Close()
+			continue
+		}
+		n := rep.Pick(240, 3000)
+		if rep.Mode() == "race" {
+			n = rep.Pick(96, 600)
+		}
+		type cs struct {
+			c      completion
+			sse    []byte
+			writes []int
+		}
+		var mu sync.Mutex
+		cases := map[string]*cs{}
+		b.SetProxy(func(r *backend.Record) *backend.Resp {
+			mu.Lock()
+			c := cases[r.Get("X-Verif-Nonce")]
+			mu.Unlock()
+			if c == nil {
+				return &backend.Resp{Status: 500, Body: []byte(`{"error":"unknown nonce"}`)}
+			}
+			return &backend.Resp{Status: 200, Headers: [][2]string{{"Content-Type", "text/event-stream"}}, Body: c.sse, Chunked: true, Writes: c.writes}
+		})
+		const workers = 24
+		var wg sync.WaitGroup
+		for wk := 0; wk < workers; wk++ {
+			wg.Add(1)
+			go func(wk int) {
+				defer wg.Done()
+				rng := rand.New(rand.NewSource(rep.Seed()*104729 + int64(wk)))
+				hc := world.NewClient(true, 30*time.Second)
+				for i := wk; i < n; i += workers {
+					c := genCompletion(rng)
+					sse := renderSSE(rng, c)
+					var writes []int
+					for left := len(sse); left > 0; {
+						k := 1 + rng.Intn(400)
+						if k > left {
+							k = left
+						}
+						writes = append(writes, k)
+						left -= k
+					}
+					nonce := fmt.Sprintf("ce-%s-%d-%d", eng, wk, i)
+					mu.Lock()
+					cases[nonce] = &cs{c, sse, writes}
+					mu.Unlock()
+					req, _ := http.NewRequest("POST", w.Base+"/olla/anthropic/v1/messages", bytes.NewReader([]byte(`{"model":"mall","max_tokens":64,"stream":true,"messages":[{"role":"user","content":"hi"}]}`)))
+					req.Header.Set("Content-Type", "application/json")
+					req.Header.Set("X-Verif-Nonce", nonce)
+					res := client.Do(hc, req)
+					run.Eval(fmt.Sprintf("e2e-conc/%s/%s/f=%s/u=%s", eng, shape(c), c.Finish, c.Usage))
+					run.Count("e2e_concurrent_cases", 1)
+					if res.Status != 200 || res.Err != "" || res.BodyErr != "" {
+						run.Violation("C13/e2e/request-failed/concurrent", fmt.Sprintf("translated streaming request failed: status %d err %q body-err %q", res.Status, res.Err, res.BodyErr), map[string]any{"completion": compact(c), "client": res})
+						continue
+					}
+					judge(run, c, res.Body, tr, "e2e-concurrent/"+eng, false)
+				}
+			}(wk)
+		}
+		wg.Wait()
 		w.Stop()
 		b.Close()
 	}
